@@ -1516,6 +1516,9 @@ class TensorDict(TensorDictBase):
 
     @cache  # noqa: B019
     def _remove_batch_dim(self, vmap_level, batch_size, out_dim):
+        # out_dim is a position in the result, which has one more batch dim than self:
+        # a negative value counts from its end, as torch does for tensor outputs
+        out_dim = _maybe_correct_neg_dim(out_dim, None, ndim=len(self.batch_size) + 1)
         new_batch_size = list(self.batch_size)
         new_batch_size.insert(out_dim, batch_size)
         names = self._maybe_names()
@@ -1543,6 +1546,9 @@ class TensorDict(TensorDictBase):
 
     @cache  # noqa: B019
     def _maybe_remove_batch_dim(self, funcname, vmap_level, batch_size, out_dim):
+        # out_dim is a position in the result, which has one more batch dim than self:
+        # a negative value counts from its end, as torch does for tensor outputs
+        out_dim = _maybe_correct_neg_dim(out_dim, None, ndim=len(self.batch_size) + 1)
         new_batch_size = list(self.batch_size)
         new_batch_size.insert(out_dim, batch_size)
         names = self._maybe_names()
